@@ -10,7 +10,9 @@ RULE = ("generated accepted journals (5 account types, 2-4 commodities with dire
         "`knut transcode -v V FILE` on each; the model's text must be byte-identical, and the executable statement "
         "(Spec.BeancountSpec.c16_verdict: reader of the text, every transaction sums to exactly zero in one commodity, dates "
         "never go back, every posted account has an open directive in force and no earlier close, the transactions are the "
-        "journal's transactions plus at most one value adjustment per day/account/commodity) is evaluated on the BINARY's "
+        "journal's transactions plus at most one value adjustment per day/account/commodity; Spec.BeancountMtmSpec.mtm_check: "
+        "the postings on every asset/liability account add up to the account's market value on the journal's last day within "
+        "one 10^-8 per booking and per (day, held commodity)) is evaluated on the BINARY's "
         "stdout.  Non-trivial: exit 0 and at least one 'Adjust value of' transaction in the output; distinct by input.")
 TRUSTED_BASE = [
     "Coq 8.16.1 kernel",
@@ -24,16 +26,27 @@ ASSUMPTIONS = ["commodity names are valid UTF-8 (guaranteed by the commodity reg
                "map iteration order in Valuate does not matter: Transcode sorts each day's transactions again"]
 TECHNIQUE = ("Coq proof about an executable Gallina model of `knut transcode` (posting-pair invariant through Sort, ComputePrices, "
              "Check, Valuate; sorted days from the builder; permutation/simulation of transactions through the stages; the "
-             "checker's open-set invariant) + byte-exact model/implementation correspondence + executable spec on the binary's output")
-LEVEL_TEXT = ("C16_balanced, C16_chronological, C16_complete, C16_open_before_use (Coq, closed under the global context) for every "
-              "journal and valuation commodity on which the model of `knut transcode -v V` succeeds; "
+             "checker's open-set invariant; for the account totals: C03's Abel-summation theorem for ComputePrices+Valuate over the "
+             "sorted days, the builder's days carry the journal's quantities and prices, sum over the held commodities, count of the "
+             "Multiply calls) + byte-exact model/implementation correspondence + executable spec on the binary's output")
+LEVEL_TEXT = ("C16_balanced, C16_chronological, C16_complete, C16_open_before_use, C16_account_totals_mark_to_market and "
+              "C16_ledger_mark_to_market (Coq, closed under the global context) for every "
+              "journal and valuation commodity on which the model of `knut transcode -v V` succeeds: no value adjustment is lost "
+              "or doubled -- the values posted to every asset/liability account add up to Sum_c quantity(a,c) * price(c) on the "
+              "journal's last day within ValuationSpec.step_bound (over the journal's first..last date) * 10^-8, and the clause mtm_check of the executable verdict "
+              "finds nothing on the model's ledger; per commodity C16_position_mark_to_market, "
+              "C16_valuation_commodity_at_quantity, C16_unbooked_commodity_not_posted; C16_adjusted_account_open: every posting on "
+              "an asset/liability account, value adjustments included, has an open directive in force and no earlier close; "
               "C16_valuation_open_refuted: the clause 'every posted account has an open directive' is FALSE for the accounts "
               "Valuate posts value adjustments to (Income:...; Transcode tests the stale prefix Equity:Valuation:) -- known "
               "finding F16, pinned by testdata/transcode/example.golden.")
 LEVEL_NOTE = ("Trusted: kernel, extraction, harness; the model-to-code tie is sampled (quick ~300 journals). The theorems are about the "
               "emitted items; that the text reads back to those items is checked on every case (roundtrip_b), not proved. "
-              "That the A/L account of a value adjustment is still open is not proved (needs the coupling of Check's and "
-              "Valuate's quantities); the spec on the binary's output checks it on every case.")
+              "Side condition of the mark-to-market theorems: account names as the parser guarantees them (postings_syntactic). "
+              "The truncation steps are counted inside [first directive date, last directive date] (year-0000 dates are negative "
+              "day numbers: C16_mtm_year0_example). "
+              "That the A/L account of a value adjustment is still open is proved (C16_adjusted_account_open: coupling of Check's "
+              "and Valuate's quantities); for its Income:... account the clause is false (F16).")
 
 
 def plan(tier, seed):
